@@ -274,6 +274,26 @@ func GetAttr(v Value, attr Value, args ...Value) (Value, error) {
 		if t.NumIn() != len(rargs) {
 			return nil, fmt.Errorf("getattr: method \"%s\" on \"%v\" expects %d parameter(s), %d given", attr, v, t.NumIn(), len(rargs))
 		}
+		if retval.IsNil() {
+			return nil, fmt.Errorf("getattr: method \"%s\" on \"%v\" is nil", attr, v)
+		}
+		for k := range rargs {
+			pt := t.In(k)
+			if t.IsVariadic() && k == len(rargs)-1 {
+				pt = pt.Elem()
+			}
+			if !rargs[k].IsValid() {
+				// a nil argument: use the zero value of the parameter type where nil is one
+				switch pt.Kind() {
+				case reflect.Ptr, reflect.Map, reflect.Slice, reflect.Interface, reflect.Func, reflect.Chan:
+					rargs[k] = reflect.Zero(pt)
+					continue
+				}
+			}
+			if !rargs[k].IsValid() || !rargs[k].Type().AssignableTo(pt) {
+				return nil, fmt.Errorf("getattr: method \"%s\" on \"%v\" cannot take %v as parameter %d", attr, v, args[k], k+1)
+			}
+		}
 		res := retval.Call(rargs)
 		if len(res) == 0 {
 			return nil, nil
